@@ -6,7 +6,7 @@
    restricted to the retained terms; and the result passes the executable statements of C01, C02
    and C03 again.  The theorems say what its reference functions mean. *)
 From Coq Require Import Relations.
-From HpoV Require Import Gen.Consts Model.Base Model.Group Model.Onto Model.Query Model.SubOnt Run.World Run.C01 Run.C11 Run.C14 Proofs.C01P Proofs.C14P Proofs.ClosureP Proofs.DistP Proofs.SubP Proofs.QgoodP Proofs.SubLinksP.
+From HpoV Require Import Gen.Consts Model.Base Model.Group Model.Onto Model.Query Model.SubOnt Run.World Run.C01 Run.C11 Run.C14 Proofs.C01P Proofs.C14P Proofs.ClosureP Proofs.DistP Proofs.SubP Proofs.QgoodP Proofs.SubLinksP Proofs.AcyclicP Proofs.RecordsP Proofs.AnnotP Proofs.SubAnnotP.
 
 Theorem C14_retained_on_shortest_chain : forall ts n l t root dl,
   sd n ts l root = Some dl ->
@@ -63,9 +63,26 @@ Theorem C14_model_structure : forall icf o root leaves o', qgood o ->
     (forall c p, parent_rel (o_arena o') c p <-> In c ids /\ In p ids /\ parent_rel (o_arena o) c p).
 Proof. exact sub_ontology_structure. Qed.
 
+(* THE ANNOTATIONS OF A SUB-ONTOLOGY: with [pheno] the retained terms that are neither a modifier
+   root nor below one, a record of the source is kept iff one of its direct terms is in [pheno]; a
+   kept record keeps exactly its direct terms that are retained (last clause: the direct set of
+   record g in the result); the result is acyclic and every one of its terms carries exactly the
+   ids of the kept records with a retained direct term at the term itself or below it (ann_ok: the
+   C02 statement holds again in the result) *)
+Theorem C14_model_annotations : forall icf o root leaves o', qgood o ->
+  (forall l, In l leaves -> In l (ar_keys (o_arena o))) -> sub_ontology icf o root leaves = Ok o' ->
+  exists ids terms, sub_ids o root leaves = Ok ids /\
+    Forall2 (fun id t => In t (ar_terms (o_arena o)) /\ t_id t = id) ids terms /\
+    let pheno := g_from_list (map t_id (filter (fun t => g_is_empty (g_inter (g_bitor_id (t_allp t) (t_id t)) (o_mod o))) terms)) in
+    acyclic (o_arena o') /\ ann_ok o' /\
+    forall k g x, In x (direct k o' g) <->
+      exists r, In r (o_records k o) /\ a_id r = g /\ kept pheno r /\ In x (a_hpos r) /\ In x ids.
+Proof. exact sub_ontology_annotations. Qed.
+
 Print Assumptions C14_retained_on_shortest_chain.
 Print Assumptions C14_result_closure_exact.
 Print Assumptions C14_model_retained_set.
 Print Assumptions C14_model_retained_on_shortest_chain.
 Print Assumptions C14_model_refusal.
 Print Assumptions C14_model_structure.
+Print Assumptions C14_model_annotations.
